@@ -146,6 +146,25 @@ def gen_codec(rng, tier, mult):
                 post = r.choice([b"", b"", b" ", b",", b"]", b"}", b"\n1", b"x", b":", b"\"", b"\x80"])
                 ops.append("skipvv %s %s %s %s" % (hx(pre + cm.ser(v) + post), hx(pre), cm.desc(v), hx(post)))
         cases.append(ops)
+    # state carried from one call to the next in ONE process: many look-ups that skip empty and nested containers
+    # (a static depth / position counter that is not restored on some exit path shows only after enough of them)
+    for si in range(2 if tier == "quick" else 12):
+        r = rng.fork("jsoak%d" % si)
+        ops = []
+        for _ in range(260):
+            ms = []
+            for _ in range(r.range(2, 4)):
+                k = r.below(5)
+                v = (("arr0", cm.gen_ws(r)) if k < 2 else ("obj0", cm.gen_ws(r)) if k == 2 else
+                     ("arr", [(cm.gen_ws(r), r.choice([("arr0", cm.gen_ws(r)), ("obj0", b""), ("arr", [(b"", ("arr0", b""), b"")])]),
+                               cm.gen_ws(r)) for _ in range(r.range(1, 3))]))
+                ms.append((cm.gen_ws(r), cm.gen_items(r, 3), cm.gen_ws(r), cm.gen_ws(r), v, cm.gen_ws(r)))
+            last = cm.gen_items(r, 4)
+            ms.append((cm.gen_ws(r), last, b"", b"", ("num", cm.gen_num(r)), cm.gen_ws(r)))
+            obj = ("obj", ms)
+            key = cm.plain_key(last).replace(b"\0", b"")
+            ops.append("jfindv %s %s %s %s %s" % (hx(cm.ser(obj)), hx(key), hx(b""), cm.desc(obj), hx(b"")))
+        cases.append(ops)
     return cases
 
 
